@@ -12,7 +12,16 @@ constructor reads); every attribute computed by `_calculate_stats` and every tab
   * with a property oracle written from the statement (numpy/math only, independent of Lean).
 
 `tools.likelihood_ratio.likelihood_ratio_test` and `bioResults.likelihood_ratio_test` are driven
-over generated pairs (the chi-square quantile of scipy is trusted).
+over generated pairs (the chi-square quantile of scipy is trusted), the method also between two real
+results objects, with likelihoods of large magnitude and small relative differences.
+
+Round 3: every *text* report path of the same object (`short_summary`, `__str__` with `Beta.__str__`
+and the pair lines, `print_general_statistics`, `get_html`, `get_latex`, `get_f12` with both values of
+their option, the files written by `write_html/_f12/_pickle`, the object read back from its pickle
+file) is parsed back into labelled figures and compared with the model of `Model/StatsReports.lean`
+and with an oracle written from the words of the labels (`props/c08_text.py`); secondary views
+(`get_correlation_results(subset)`, `get_bootstrap_var_covar`, bootstrap draws by name) and secondary
+entry points of the compiled table (dictionary of pickle file names, `compile_results_in_directory`).
 """
 
 from __future__ import annotations
@@ -26,6 +35,7 @@ import numpy as np
 
 from lib import core
 from lib.core import Result, f2b, b2f
+from props import c08_text as txt
 
 READY = True
 MANIFEST = dict(
@@ -37,32 +47,52 @@ MANIFEST = dict(
     'sample covariance definition, symmetry, non-negative variances; LR/rho2/rhobar2/AIC/BIC formulas; every cell of the parameter, correlation, general-statistics and compiled '
     'tables is the quantity its label names (table_labels_*, finite label grammar, all layouts, formatted or not), rendered labels are distinct (labels_distinct; '
     'compiled_labels_unambiguous_partial under a guard on parameter names, with a collision witness without it); likelihood-ratio test roles/statistic/df/refusal '
-    '(lr_refusal, lr_decision, lr_reject; lr_symmetric_partial with a witness that the order matters on ties). '
+    '(lr_refusal, lr_decision, lr_reject; lr_symmetric_partial with a witness that the order matters on ties; lr_on_results for the method of a results object). '
+    'Text reports (round 3, Model/StatsReports.lean): every line of short_summary and __str__ is the defining formula of the statistic its words name (report_short_summary, '
+    'report_str_statistics), print_general_statistics prints exactly the dictionary and is refused exactly when a figure is None under a precision (report_print_general, '
+    'report_print_general_refused), every figure of a Beta.__str__ line is that family\'s statistic and the eight places of a pair line are cov/corr/t/p of the classical then robust family '
+    '(report_str_parameters, report_str_pairs), the HTML report prints the non-None dictionary entries (report_html_statistics) and names the two parameters of a correlation row '
+    'for names without "-" (report_html_pair_names_partial, witness html_pair_names_can_mislabel), F12 prints flag/value/standard error and correlation of the family selected by '
+    'its option (report_f12_coefficients, report_f12_correlations); the words are pairwise different (text_labels_distinct); label -> attribute -> formula (general_sources, text_sources: the figure under a label is what was stored in the attribute the label reads, and that is the defining formula), the label -> attribute tables being regenerated on every run from a live results object whose attributes hold sentinel values (Generated/StatsLabels.lean, three decide obligations); get_correlation_results(subset) keeps exactly the rows of the pairs inside the subset (table_subset_correlation); bootstrap draws by name (draws_by_name). '
     'Tie: correspondence on real RawResults/bioResults objects built from generated raw outcomes (K=1..6, negative definite/singular/NaN/indefinite Hessians, '
     'with/without null likelihood and bootstrap, active bounds) and on real estimations with bootstrap; every attribute and every table cell compared; '
-    'tools.likelihood_ratio_test and bioResults.likelihood_ratio_test over generated pairs.',
+    'tools.likelihood_ratio_test and bioResults.likelihood_ratio_test over generated pairs (stubs and pairs of real results objects; magnitudes up to 3e7 with differences down to one rounding unit). '
+    'Round 3: short_summary, __str__, print_general_statistics, get_html, get_latex (only_robust both ways), get_f12 (robust_std_err both ways) of every generated object, the files of '
+    'write_html/write_f12, the object read back from write_pickle and the reports printed after the write_* calls are parsed into labelled figures: labels in order and every printed figure '
+    '= format(model value) (model) and = the quantity the words name to the digits printed (oracle); get_correlation_results(subset), get_bootstrap_var_covar, bootstrap draws by name; '
+    'compile_estimation_results on pickle file names and compile_results_in_directory; numerically rank-deficient Gram Hessians at several scales; large-sample likelihoods with init != null.',
     design='DESIGN.md §5 C08',
-    technique='Lean 4 theorems over an executable NumOps model (Float in the driver, R in the proofs) + differential correspondence with real bioResults objects + independent numpy oracle',
+    technique='Lean 4 theorems over an executable NumOps model (Float in the driver, R in the proofs) + differential correspondence with real bioResults objects (attributes, tables, every text report parsed back) + translator from live objects (label -> attribute tables, decide) + independent numpy oracle',
     note='Partial: LAPACK (pinv/eigh/svd/inv), scipy Phi and chi-square quantile, numpy cov/dot and str.format are trusted; the pseudo-inverse is relational '
     '(four Penrose equations checked numerically on every case, by the driver and by numpy); theorems are over R, the driver runs on IEEE doubles (tolerances stated). '
     'Row labels of the compiled table are unambiguous only for parameter names that are not statistic labels and do not end in " (std)"/" (ttest)" (proved; collision witness otherwise). '
     'The likelihood-ratio test depends on the order of its arguments when the likelihoods or the numbers of parameters are equal (proved witness; not part of the statement). '
-    'Known finding F-C08-1: a one-parameter model with bootstrap makes np.cov return a 0-d array and bioResults raises IndexError (patch in proposed_fixes/F-C08-1.diff).',
+    'F-C08-1 (one-parameter model with bootstrap) is fixed in the tree and exercised. '
+    'Text reports: str.format, pandas Styler.to_latex and the field layout are trusted/parsed, not modelled; print_general_statistics, get_latex (and short_summary/__str__ with a zero reference '
+    'likelihood) raise TypeError when a figure is None (no initial log likelihood, zero reference): modelled as a refusal, not counted as a violation. '
+    'The HTML report recovers the two names of a correlation row by split("-"): a parameter name containing "-" is printed as two other names (proved witness; names without "-" assumed). '
+    'F12 correlation fields overflow their width for |correlation| >= 10 (indefinite Hessians): then only the count of fields is not checked. Eigenvalues printed by the HTML report: oracle only (LAPACK). '
+    'The number of digits a report prints is not part of the property: printed figures are compared to the precision the text itself shows. '
+    'Not covered: get_betas_for_sensitivity_analysis(use_bootstrap=False) (random draws), pareto_optimal (model selection, not a report figure), the headers.',
 )
 
 TRUSTED = [
     'LAPACK through scipy.linalg (pinv: only its defining relation is assumed and it is checked numerically on every case; inv of a diagonal matrix; eigh/svd not modelled)',
     'scipy.stats.norm.cdf (Phi) and chi2.ppf; Lean side uses its own erfc (|difference| checked within the p-value tolerance)',
-    'numpy dot / cov / sqrt / nan_to_num and CPython str.format for the formatted table cells',
+    'numpy dot / cov / sqrt / nan_to_num and CPython str.format for the formatted table cells and for every printed figure of the text reports (the harness applies format() to the model value)',
+    'pandas (DataFrame alignment, Styler.to_latex, pickle round trip) and the parsers of props/c08_text.py that read the labelled figures back from the text',
     'IEEE doubles vs R: theorems are over R; the executable model runs the same definitions on Float',
 ]
 ASSUMPTIONS = [
     'regular-case hypotheses of the real-valued theorems: positive variance and |t| representable (else the special-case theorems apply)',
     'parameter names are distinct and do not collide with statistic labels or end in " (std)" / " (ttest)" (row labels of the compiled table)',
+    'parameter names without "-" for the two name columns of the HTML correlation table; names of at most 10 characters for the F12 labels',
+    'a missing initial log likelihood or a zero reference likelihood makes the text reports that print it with a precision raise TypeError (modelled refusal)',
 ]
 RULE = (
-    'raw outcomes with K in 1..6; non-trivial = K >= 2 and (Hessian exactly singular / numerically rank-deficient (collinear regressors) / with NaN / indefinite, or bootstrap present, or an active bound); '
-    'compiled tables over 1-3 models; likelihood-ratio pairs'
+    'raw outcomes with K in 1..6; non-trivial = K >= 2 and (Hessian exactly singular / numerically rank-deficient (collinear regressors, low-rank Gram matrices at several scales) / regular but badly scaled (condition number up to ~1e8) / with NaN / indefinite, or bootstrap present, or an active bound); '
+    'compiled tables over 1-3 models (objects, pickle file names, directory); likelihood-ratio pairs (tool, method on stubs, method between real objects); '
+    'every report case also drives all text report paths of its object (tallies text:<path>:printed/refused)'
 )
 TOL = ('stage-wise (code matrix in, statistic out): rel 1e-11, p-values abs 1e-10; matrix products/covariances: 1e-9 of the scale; Penrose residuals: 1e4*K^2*eps*scale, '
        'the scale being the norm of THE pseudo-inverse (1/smallest non-zero singular value of -H) whenever the numerical rank is unambiguous; then also |V| <= 2K/sigma_min+ and V = reference pseudo-inverse (1e-6)')
@@ -142,6 +172,19 @@ def gen_H(rng, K, kind):
         X = np.column_stack([cols[k] for k in order])
         prob = np.array([rng.uniform(0.1, 0.9) for _ in range(n)])
         H = -(X.T @ ((prob * (1 - prob))[:, None] * X))
+    elif kind == 'gram':
+        # H = -A A' with fewer columns than rows and non-dyadic entries, at several scales: rank deficient
+        # up to rounding only (smallest eigenvalue ~1e-16 of the largest, not an exact zero pivot)
+        r = rng.randint(1, K - 1) if K > 1 else 0
+        A = np.array([[rng.uniform(-2, 2) for _ in range(r)] for _ in range(K)]).reshape(K, r)
+        H = -(A @ A.T) * rng.choice([1e-3, 1.0, 1.0, 1e4]) if r > 0 else np.zeros((K, K))
+    elif kind == 'scaled':
+        # regular but badly scaled (parameters in different units): negative definite with a condition
+        # number up to ~1e8 -- the (pseudo-)inverse is the true inverse, no singular value may be dropped
+        G = np.array([[dy(rng, -2, 2) for _ in range(K + 2)] for _ in range(K)])
+        D = np.diag([10.0 ** rng.choice([-1.5, -1.0, 0.0, 0.0, 1.0, 1.5]) for _ in range(K)])
+        H = -(D @ (G @ G.T + np.eye(K)) @ D)
+        H = (H + H.T) / 2
     elif kind == 'diag':
         H = -np.diag([rng.choice([0.25, 1.0, 4.0, 16.0]) for _ in range(K)])
     else:  # zero
@@ -151,7 +194,7 @@ def gen_H(rng, K, kind):
 
 def gen_case(rng, K=None, kind=None, boot=None, allow_k1_boot=False):
     K = K or rng.choice([1, 2, 2, 3, 3, 4, 5, 6])
-    kind = kind or rng.choice(['negdef', 'negdef', 'negdef', 'singular', 'singular', 'collinear', 'collinear', 'nan', 'indefinite', 'diag', 'zero'])
+    kind = kind or rng.choice(['negdef', 'negdef', 'negdef', 'singular', 'singular', 'collinear', 'collinear', 'gram', 'gram', 'scaled', 'scaled', 'nan', 'indefinite', 'diag', 'zero'])
     names = rng.sample(NAME_POOL, K)
     beta = [rng.choice([dy(rng, -3, 3), rng.uniform(-2, 2), 0.0, 1.0]) for _ in range(K)]
     H = gen_H(rng, K, kind)
@@ -194,6 +237,12 @@ def gen_case(rng, K=None, kind=None, boot=None, allow_k1_boot=False):
     r = rng.random()
     null = None if r < 0.45 else (0.0 if r < 0.5 else L - rng.uniform(0, 300))
     N = rng.choice([1, 2, 10, 100, 999, 5000])
+    if rng.random() < 0.15:
+        # large sample: log likelihoods of large magnitude with small differences; warm start (init != null)
+        L = -rng.uniform(1e4, 1e6)
+        init = L - rng.choice([1e-3, 0.5, 3.0, 1e-3 * abs(L)])
+        null = None if rng.random() < 0.3 else init - rng.choice([0.0, 2.0, 10.0, 1e-2 * abs(L)])
+        N = rng.choice([5000, 100000, 2500000])
     nobs = N if rng.random() < 0.7 else N * rng.randint(2, 5)
     return {
         'kind': 'report',
@@ -322,6 +371,20 @@ def extract(res):
         'robust_df': table_json(res.get_robust_var_covar()),
         'gnorm': fl(d.gradientNorm),
     }
+    # secondary views: subset of the correlation table (with an unknown name), bootstrap data frame,
+    # bootstrap draws by name
+    names = list(d.betaNames)
+    sub = [n for i, n in enumerate(names) if i % 2 == 0][::-1] + ['<unknown>'] if len(names) >= 3 else list(names[::-1])
+    out['corr_subset'] = [sub, table_json(res.get_correlation_results(subset=sub))]
+    bdf = res.get_bootstrap_var_covar()
+    out['boot_df'] = None if bdf is None else table_json(bdf)
+    if d.bootstrap is not None:
+        req = names[::-1][: max(1, len(names) - 1)]
+        out['sens'] = [req, [{k: float(v) for k, v in row.items()} for row in res.get_betas_for_sensitivity_analysis(req, use_bootstrap=True)]]
+    else:
+        out['sens'] = None
+    out['vc_missing'] = bool(res.variance_covariance_missing())
+    out['optkeys'] = [str(k) for k in d.optimizationMessages]
     for row in out['general']:
         if isinstance(row[1], (np.integer,)):
             row[1] = int(row[1])
@@ -649,10 +712,37 @@ def oracle_tables(case, out):
         if need not in labels:
             bad.append((f'general statistics: {need!r} missing', labels, need, W))
     # data-frame views of the covariance matrices
-    for tname, mk, W in (('varcovar_df', 'V', 'get_var_covar'), ('robust_df', 'R', 'get_robust_var_covar')):
-        T = out[tname]
-        if T['index'] != case['names'] or T['columns'] != case['names'] or not mat_close(T['values'], out[mk], 0.0):
+    views = [('varcovar_df', 'V', 'get_var_covar'), ('robust_df', 'R', 'get_robust_var_covar')]
+    if case['S'] is not None:
+        views.append(('boot_df', 'Bt', 'get_bootstrap_var_covar'))
+    elif out.get('boot_df') is not None:
+        bad.append(('get_bootstrap_var_covar: a matrix without bootstrap sample', out['boot_df'], None, 'get_bootstrap_var_covar'))
+    for tname, mk, W in views:
+        T = out.get(tname)
+        if T is None or T['index'] != case['names'] or T['columns'] != case['names'] or not mat_close(T['values'], out[mk], 0.0):
             bad.append((f'{W}: data frame is not the matrix by parameter names', T, out[mk], W))
+    # subset of the correlation table: exactly the pairs with both names in the subset, same cells
+    if out.get('corr_subset') is not None:
+        sub, Ts = out['corr_subset']
+        W = 'get_correlation_results'
+        full = {rl: row for rl, row in zip(out['corr_table']['index'], out['corr_table']['values'])}
+        exp_rows = [f'{k[0]}-{k[1]}' for k, _ in out['second'] if k[0] in sub and k[1] in sub]
+        if Ts['index'] != exp_rows or Ts['columns'] != out['corr_table']['columns']:
+            bad.append((f'correlation table of the subset {sub}: rows', Ts['index'], exp_rows, W))
+        else:
+            for rl, row in zip(Ts['index'], Ts['values']):
+                if not all(same(a, b, 0.0) for a, b in zip(row, full[rl])):
+                    bad.append((f'correlation table of the subset {sub}: row {rl!r}', row, full[rl], W))
+    # bootstrap draws by name: every dict maps a requested name to that parameter's replication
+    if out.get('sens') is not None and case['S'] is not None:
+        req, rows = out['sens']
+        W = 'get_betas_for_sensitivity_analysis'
+        ix = {n: i for i, n in enumerate(case['names'])}
+        exp = [{n: float(r[ix[n]]) for n in req} for r in case['S']]
+        if rows != exp:
+            bad.append((f'bootstrap draws by name for {req}', rows[:2], exp[:2], W))
+    if out.get('vc_missing'):
+        bad.append(('variance_covariance_missing() although a Hessian was supplied', True, False, 'variance_covariance_missing'))
     return bad
 
 
@@ -848,22 +938,52 @@ def gen_compile(rng):
         'ttest': rng.random() < 0.6,
         'formatted': rng.random() < 0.5,
         'short': rng.random() < 0.3,
+        # 'directory': the models are written as pickle files and compiled by compile_results_in_directory;
+        # 'files': the dictionary holds the names of the pickle files instead of the objects
+        'via': rng.choice(['dict', 'dict', 'dict', 'directory', 'files']),
     }
 
 
 def run_compile(cc):
-    from biogeme.results import compile_estimation_results
+    from biogeme.results import compile_estimation_results, compile_results_in_directory
 
+    via = cc.get('via', 'dict')
     with np.errstate(all='ignore'):
         results, outs = [], []
-        for c in cc['models']:
-            r = build_results(c)
+        for c, n in zip(cc['models'], cc['model_names']):
+            r = build_results(dict(c, model_name=n) if via != 'dict' else c)
             results.append(r)
             outs.append(extract(r))
-        d = {n: r for n, r in zip(cc['model_names'], results)}
-        df, conf = compile_estimation_results(
-            d, statistics=tuple(cc['statistics']), include_parameter_estimates=cc['params'], include_robust_stderr=cc['std'],
-            include_robust_ttest=cc['ttest'], formatted=cc['formatted'], use_short_names=cc['short'])
+        if via == 'dict':
+            d = {n: r for n, r in zip(cc['model_names'], results)}
+            df, conf = compile_estimation_results(
+                d, statistics=tuple(cc['statistics']), include_parameter_estimates=cc['params'], include_robust_stderr=cc['std'],
+                include_robust_ttest=cc['ttest'], formatted=cc['formatted'], use_short_names=cc['short'])
+        else:
+            with core.scratch():
+                files = [r.write_pickle() for r in results]
+                for r in results:
+                    r.data.pickleFileName = None
+                if via == 'files':
+                    d = {n: f for n, f in zip(cc['model_names'], files)}
+                    df, conf = compile_estimation_results(
+                        d, statistics=tuple(cc['statistics']), include_parameter_estimates=cc['params'], include_robust_stderr=cc['std'],
+                        include_robust_ttest=cc['ttest'], formatted=cc['formatted'], use_short_names=cc['short'])
+                else:
+                    df, conf = compile_results_in_directory(
+                        statistics=tuple(cc['statistics']), include_parameter_estimates=cc['params'], include_robust_stderr=cc['std'],
+                        include_robust_ttest=cc['ttest'], formatted=cc['formatted'])
+                    # glob order is arbitrary: columns back into the order of the models, named by the model
+                    back = {f: n for f, n in zip(files, cc['model_names'])}
+                    if sorted(conf.values()) != sorted(files) or sorted(map(str, df.columns)) != sorted(files):
+                        raise ValueError(f'compile_results_in_directory: columns {list(df.columns)} / {conf} are not the pickle files {files}')
+                    # glob order is arbitrary: the models are processed in the order of the columns
+                    order = [files.index(str(c)) for c in df.columns]
+                    df = df.rename(columns=back)
+                    conf = {back[c]: back[f] for c, f in conf.items()}
+                    outs = [outs[i] for i in order]
+                    cc['models'] = [cc['models'][i] for i in order]
+                    cc['model_names'] = [cc['model_names'][i] for i in order]
     cols = [str(c) for c in df.columns]
     table = {'columns': cols, 'index': [str(i) for i in df.index], 'values': df.to_numpy(dtype=object).tolist(), 'conf': dict(conf)}
     for row in table['values']:
@@ -977,28 +1097,44 @@ def compare_compile(res, cc, table, ans):
 
 
 def gen_lr(rng):
-    l1 = -rng.uniform(50, 300) if rng.random() < 0.7 else float(-rng.randint(50, 300))
+    # likelihoods of ordinary and of large magnitude (large samples), differences from one rounding
+    # unit to tens of units: small relative to the magnitude, decisive for the test
+    mag = rng.choice([1.0, 1.0, 1.0, 1e2, 1e3, 1e4, 1e5])
+    l1 = (-rng.uniform(50, 300) if rng.random() < 0.7 else float(-rng.randint(50, 300))) * mag
     r = rng.random()
-    l2 = l1 if r < 0.1 else l1 + rng.choice([-1, 1]) * rng.choice([1e-9, 0.5, 1.0, 3.0, 10.0, 40.0])
+    l2 = l1 if r < 0.1 else l1 + rng.choice([-1, 1]) * rng.choice([1e-9, 1e-3, 0.5, 1.0, 1.92, 3.0, 10.0, 40.0, abs(l1) * 1e-7, abs(l1) * 3e-6])
     k1 = rng.randint(1, 8)
     k2 = k1 if rng.random() < 0.15 else rng.randint(1, 8)
-    return {'kind': 'lr', 'l1': l1, 'k1': k1, 'l2': l2, 'k2': k2, 'level': rng.choice([0.05, 0.01, 0.1, 0.5]), 'via': rng.choice(['tools', 'results'])}
+    return {'kind': 'lr', 'l1': l1, 'k1': k1, 'l2': l2, 'k2': k2, 'level': rng.choice([0.05, 0.01, 0.1, 0.5]),
+            'via': rng.choice(['tools', 'results', 'objects', 'objects'])}
+
+
+def mini_case(L, K):
+    """a plain raw outcome with final log likelihood L and K parameters (for tests between results objects)"""
+    return {'kind': 'report', 'hkind': 'diag', 'names': [f'p{k}' for k in range(K)], 'beta': [0.5 + k for k in range(K)], 'bounds': [[None, None]] * K,
+            'H': (-np.eye(K)).tolist(), 'B': np.eye(K).tolist(), 'S': None, 'L': L, 'init': L - 10.0, 'null': None, 'N': 100, 'nobs': 100,
+            'excluded': 0, 'mc': False, 'ndraws': 0, 'threads': 1}
 
 
 def run_lr(c):
-    """the real function; via='results' goes through bioResults.likelihood_ratio_test(other)"""
+    """the real function; via='results' goes through bioResults.likelihood_ratio_test(other) on stubs,
+    via='objects' through the method of a real results object given another real results object"""
     from biogeme.tools.likelihood_ratio import likelihood_ratio_test
     from biogeme.exceptions import BiogemeError
 
     try:
         if c['via'] == 'tools':
             r = likelihood_ratio_test((c['l1'], c['k1']), (c['l2'], c['k2']), c['level'])
-        else:
+        elif c['via'] == 'results':
             # bioResults.likelihood_ratio_test(other) calls the tool with (other, self)
             mk = lambda L, k: NS(data=NS(logLike=L, nparam=k))  # noqa: E731
             from biogeme.results import bioResults
 
             r = bioResults.likelihood_ratio_test(mk(c['l2'], c['k2']), mk(c['l1'], c['k1']), c['level'])
+        else:
+            with np.errstate(all='ignore'):
+                me, other = build_results(mini_case(c['l2'], c['k2'])), build_results(mini_case(c['l1'], c['k1']))
+            r = me.likelihood_ratio_test(other, c['level']) if c['level'] != 0.05 or c.get('explicit_level') else me.likelihood_ratio_test(other)
         return {'refused': False, 'message': r.message, 'stat': float(r.statistic), 'threshold': float(r.threshold)}
     except BiogemeError as e:
         return {'refused': True, 'message': str(e)}
@@ -1101,7 +1237,128 @@ def real_estimation_case(rng, tag):
         'nobs': int(dt.numberOfObservations), 'excluded': int(dt.excludedData), 'mc': bool(dt.monte_carlo),
         'ndraws': int(dt.numberOfDraws), 'threads': int(dt.numberOfThreads), 'real': True,
     }
-    return case, extract(res)
+    return case, extract(res), res
+
+
+# --------------------------------------------------------------------------- translator (live objects -> Lean data)
+
+GEN_FILE = core.LEAN / 'Generated' / 'StatsLabels.lean'
+
+# attributes of RawResults read by the reports: (name, kind); every one receives a distinct sentinel value
+SENTINEL_ATTRS = [
+    ('nparam', 'int'), ('sampleSize', 'int'), ('numberOfObservations', 'int'), ('excludedData', 'int'), ('numberOfDraws', 'int'), ('numberOfThreads', 'int'),
+    ('nullLogLike', 'float'), ('initLogLike', 'float'), ('logLike', 'float'), ('likelihoodRatioTestNull', 'float'), ('rhoSquareNull', 'float'),
+    ('rhoBarSquareNull', 'float'), ('likelihoodRatioTest', 'float'), ('rhoSquare', 'float'), ('rhoBarSquare', 'float'), ('akaike', 'float'),
+    ('bayesian', 'float'), ('gradientNorm', 'float'),
+    ('drawsProcessingTime', 'time'), ('typesOfDraws', 'dict'), ('bootstrap_time', 'time'),
+]
+
+
+def _sentinel_object():
+    """a real results object (all optional blocks present) whose report attributes hold distinct sentinels"""
+    case = dict(CORPUS[0], bounds=[[0.5, None], [None, None]], mc=True, ndraws=10, nobs=300)
+    with np.errstate(all='ignore'):
+        robj = build_results(case)
+    sent = {}
+    for i, (a, kind) in enumerate(SENTINEL_ATTRS):
+        v = {'int': 201 + i, 'float': 101 + i + 0.123456789, 'time': datetime.timedelta(seconds=301 + i), 'dict': {f's{301 + i}': 'x'}}[kind]
+        setattr(robj.data, a, v)
+        sent[a] = v
+    return robj, sent
+
+
+def _attr_of_value(v, sent, robj):
+    for a, s in sent.items():
+        if isinstance(s, dict):
+            if v == [f'{i}: {k}' for i, k in s.items()]:
+                return a
+        elif type(v) is type(s) and v == s:
+            return a
+    if isinstance(v, (int, np.integer)) and not isinstance(v, bool) and v == robj.number_of_free_parameters():
+        return 'number_of_free_parameters()'
+    return f'<unrecognised value {v!r}>'
+
+
+def _attr_of_text(t, sent):
+    """printed figure -> (attribute, format code) through the sentinels"""
+    t = t.strip()
+    try:
+        x = float(t)
+    except ValueError:
+        return f'<unrecognised text {t!r}>', '?'
+    for a, s in sent.items():
+        if isinstance(s, int) and x == s and '.' not in t:
+            return a, ''
+        if isinstance(s, float) and math.floor(x) == math.floor(s):
+            digits = len(t.replace('-', '').replace('.', ''))
+            return a, {7: '.7g', 3: '.3g'}.get(digits, f'<{digits} digits>')
+    return f'<unrecognised figure {t!r}>', '?'
+
+
+def _lean_str(s):
+    return '"' + s.replace('\\', '\\\\').replace('"', '\\"') + '"'
+
+
+def translate(ctx):
+    """regenerate lean/Generated/StatsLabels.lean from LIVE objects: a real results object whose report
+    attributes were overwritten by distinct sentinel values tells, for every label of get_general_statistics /
+    short_summary / __str__, which attribute is printed under it; the obligations state
+    that these tables ARE the label -> attribute tables of the Lean model (whose values
+    `general_sources` / `text_sources` of Props/C08.lean tie to the defining formulas)."""
+    import re
+
+    names = ['general_table_eq', 'short_table_eq', 'str_table_eq']
+    try:
+        with core.scratch():
+            robj, sent = _sentinel_object()
+            gen = [(k, _attr_of_value(v.value, sent, robj)) for k, v in robj.get_general_statistics().items()]
+            short = [(lab, _attr_of_text(t, sent)[0]) for lab, t in txt.parse_colon('\n'.join(robj.short_summary().split('\n')[1:]))]
+            st = str(robj).split('\n')
+            i0 = next(n for n, ln in enumerate(st) if ln.startswith('Results for model')) + 1
+            lines = []
+            for ln in st[i0:]:
+                if ':\t' not in ln or ln.startswith(f'{robj.data.betas[0].name:15}: '):
+                    break
+                lines.append(ln)
+            strt = [(lab, _attr_of_text(t, sent)[0]) for lab, t in txt.parse_colon('\n'.join(lines))]
+    except Exception as e:  # noqa: BLE001
+        return [{'name': f'Generated.StatsLabels.{n}', 'ok': False, 'why': f'the live reports could not be read: {type(e).__name__}: {e}'[:300]} for n in names]
+
+    def table(name, rows):
+        return [f'def {name} : List (String × String) := ['] + [
+            f'  ({_lean_str(a)}, {_lean_str(b)})' + (',' if n < len(rows) - 1 else '') for n, (a, b) in enumerate(rows)] + [']', '']
+
+    text = '\n'.join([
+        '/- GENERATED on every run by harness/props/c08.py (translate) from LIVE results objects of biogeme.results:',
+        '   a real bioResults whose report attributes hold distinct sentinel values is printed; for every label the table',
+        '   records the attribute whose sentinel appears under it (the number of digits printed is not part of the tie).  Do not edit. -/',
+        'import Model.StatsSources', '', 'namespace GenStats', 'open Stats', ''] +
+        table('generalTable', gen) + table('shortTable', short) + table('strTable', strt) + [
+        '/-- the dictionary of `get_general_statistics` reads, under every label, the attribute the model says -/',
+        'theorem general_table_eq : generalTable = GLabel.all.map (fun l => (l.render, l.source.name)) := by decide', '',
+        '/-- `short_summary` prints, under every one of its words, the attribute the model says -/',
+        'theorem short_table_eq : shortTable = shortLabels.map (fun l => (l.textLabel, l.source.name)) := by decide', '',
+        '/-- `__str__` likewise -/',
+        'theorem str_table_eq : strTable = strLabels.map (fun l => (l.textLabel, l.source.name)) := by decide', '',
+        'end GenStats', ''])
+    if not GEN_FILE.exists() or GEN_FILE.read_text() != text:
+        GEN_FILE.write_text(text)
+    ok, log = core.lean_build(['Generated.StatsLabels'])
+    failed = set()
+    if not ok:
+        tl = text.splitlines()
+        starts = {n: next(i for i, l in enumerate(tl, 1) if l.startswith(f'theorem {n} ')) for n in names}
+        for m in re.finditer(r'error: Generated/StatsLabels\.lean:(\d+):\d+', log):
+            owner = max((n for n in names if starts[n] <= int(m.group(1))), key=lambda n: starts[n], default=None)
+            if owner:
+                failed.add(owner)
+        if not failed:
+            failed = set(names)
+    obligations = []
+    for n, rows in zip(names, (gen, short, strt)):
+        why = 'decide' if n not in failed else ('the live table differs from the model: ' + json.dumps(rows)[:400])
+        obligations.append({'name': f'Generated.StatsLabels.{n}', 'ok': n not in failed, 'why': why})
+    return obligations
 
 
 # --------------------------------------------------------------------------- the check
@@ -1131,6 +1388,11 @@ def _collinear_corpus():
 # a constant and two complementary dummies: rank 2 with 3 parameters, not exactly singular in floating point
 CORPUS.append(_collinear_corpus())
 
+# warm start on a large sample: init != null, both close to the final value relative to the magnitude
+CORPUS.append({'kind': 'report', 'hkind': 'corpus', 'names': ['B_TIME', 'ASC_CAR'], 'beta': [-1.25, 0.5], 'bounds': [[None, None], [None, 0.5]],
+               'H': [[-4.0e4, 1.0e3], [1.0e3, -3.0e4]], 'B': [[5.0e4, 2.0e3], [2.0e3, 2.5e4]], 'S': None, 'L': -398765.4321, 'init': -398771.0,
+               'null': -412345.678, 'N': 2500000, 'nobs': 2500000, 'excluded': 0, 'mc': False, 'ndraws': 0, 'threads': 1})
+
 CORPUS_K1_BOOT = {
     'kind': 'report', 'hkind': 'corpus', 'names': ['b'], 'beta': [0.5], 'bounds': [[None, None]], 'H': [[-4.0]], 'B': [[3.0]],
     'S': [[0.4], [0.6], [0.5]], 'L': -100.0, 'init': -120.0, 'null': None, 'N': 100, 'nobs': 100, 'excluded': 0, 'mc': False, 'ndraws': 0, 'threads': 1,
@@ -1144,18 +1406,86 @@ CORPUS_LR = [
     {'kind': 'lr', 'l1': -100.0, 'k1': 5, 'l2': -110.0, 'k2': 3, 'level': 0.05, 'via': 'tools'},
     {'kind': 'lr', 'l1': -110.0, 'k1': 3, 'l2': -100.0, 'k2': 5, 'level': 0.05, 'via': 'results'},
     {'kind': 'lr', 'l1': -100.0, 'k1': 3, 'l2': -110.0, 'k2': 5, 'level': 0.05, 'via': 'tools'},
+    # large samples: a difference that is tiny relative to the magnitude and decisive for the test
+    {'kind': 'lr', 'l1': -250000.0, 'k1': 4, 'l2': -249996.5, 'k2': 5, 'level': 0.05, 'via': 'tools'},
+    {'kind': 'lr', 'l1': -249996.5, 'k1': 5, 'l2': -250000.0, 'k2': 4, 'level': 0.01, 'via': 'objects'},
+    {'kind': 'lr', 'l1': -1000.005, 'k1': 2, 'l2': -1000.0, 'k2': 3, 'level': 0.05, 'via': 'objects'},
 ]
 
 
 def nontrivial(case):
     return len(case['beta']) >= 2 and (
-        case.get('hkind') in ('singular', 'collinear', 'nan', 'indefinite', 'zero', 'real') or case['S'] is not None
+        case.get('hkind') in ('singular', 'collinear', 'gram', 'scaled', 'nan', 'indefinite', 'zero', 'real') or case['S'] is not None
         or any(l is not None or u is not None for l, u in case['bounds'])
     )
 
 
 def k1_boot_known(ctx):
     return any(f.get('id') == 'F-C08-1' and f.get('kind') == 'known' for f in ctx.findings)
+
+
+def compare_views(res, case, out, sub_ans, sens_ans):
+    """secondary views: model vs code"""
+    W = 'get_correlation_results'
+    if 'error' in sub_ans:
+        res.diverge('driver error (subset)', case, sub_ans['error'], None, where=W)
+    else:
+        sub, T = out['corr_subset']
+        rows = sub_ans['rows']
+        if [r[0] for r in rows] != T['index']:
+            res.diverge(f'correlation table of the subset {sub}: row labels', case, [r[0] for r in rows], T['index'], where=W)
+        else:
+            for r, crow in zip(rows, T['values']):
+                for c, a, b in zip(T['columns'], r[1], crow):
+                    isp = 'p-value' in c
+                    if not same(unb(a), b, 1e-9 if isp else 1e-11, 1e-10 if isp else (1e-11 if 'orr' in c else 0.0)):
+                        res.diverge(f'correlation table of the subset {sub}: cell ({r[0]!r}, {c!r})', case, unb(a), b, where=W)
+    if sens_ans is not None:
+        W = 'get_betas_for_sensitivity_analysis'
+        if 'rows' not in sens_ans:
+            res.diverge('bootstrap draws by name: the model refuses', case, sens_ans, out['sens'][0], where=W)
+        else:
+            m = [{n: b2f(v) for n, v in row} for row in sens_ans['rows']]
+            if m != out['sens'][1]:
+                res.diverge(f'bootstrap draws by name for {out["sens"][0]}', case, m[:2], out['sens'][1][:2], where=W)
+
+
+def full_oracle(case, out, robj):
+    """the statement applied to the attributes, the tables and every text report of one object"""
+    return oracle(case, out) + txt.oracle_text(case, out, txt.collect(robj), GENERAL_LABEL)
+
+
+def written_reports(robj, rng):
+    """state left behind by the write_* methods: the files they write and the reports printed after
+    them (file names recorded in the object), and the object read back from its pickle file"""
+    from biogeme.results import bioResults
+
+    only_robust = rng.random() < 0.5
+    rob12 = rng.random() < 0.5
+    texts = {}
+    with core.scratch() as d:
+        try:
+            with np.errstate(all='ignore'):
+                robj.write_html(only_robust=only_robust)
+                texts['html_robust' if only_robust else 'html_all'] = ['ok', open(robj.data.htmlFileName, encoding='utf-8').read()]
+                robj.write_f12(robust_std_err=rob12)
+                texts['f12_robust' if rob12 else 'f12_classical'] = ['ok', open(robj.data.F12FileName, encoding='utf-8').read()]
+                try:
+                    robj.write_latex()
+                    texts['latex_robust'] = ['ok', open(robj.data.latexFileName, encoding='utf-8').read()]
+                except TypeError as e:  # None under a precision: the modelled refusal of get_latex
+                    texts['latex_robust'] = ['exc', f'TypeError: {e}']
+                pk = robj.write_pickle()
+                back = bioResults(pickle_file=pk, identification_threshold=1.0e-5)
+                texts.update(txt.collect(back, ('short', 'print_general')))
+                texts['str'] = txt.collect(robj, ('str',))['str']
+                if texts['str'][0] == 'ok' and 'Output file (HTML)' not in texts['str'][1]:
+                    texts['str'] = ['exc', 'ValueError: the report printed after write_html does not name the HTML file']
+        except Exception as e:  # noqa: BLE001
+            texts['written'] = ['exc', f'{type(e).__name__}: {e}']
+        finally:
+            robj.data.htmlFileName = robj.data.F12FileName = robj.data.pickleFileName = robj.data.latexFileName = None
+    return texts
 
 
 def check_report(ctx, res, case, prebuilt=None):
@@ -1168,20 +1498,47 @@ def check_report(ctx, res, case, prebuilt=None):
                 f'no report can be produced from this raw outcome: {r[2]}', case, r[2], 'a results object whose statistics follow the defining formulas',
                 where=WHERE_K1 if k1 else f'bioResults constructor ({r[1]})')
             return
-        out = r[1]
+        out, robj = r[1], r[2]
     else:
-        out = prebuilt
+        out, robj = prebuilt
     res.count({k: case[k] for k in ('names', 'beta', 'H', 'hkind')}, nontrivial=nontrivial(case))
     res.tally(f'K={len(case["beta"])}')
     res.tally(f'hessian={case.get("hkind")}')
     res.tally('bootstrap' if case['S'] is not None else 'no_bootstrap')
+    res.tally('null_and_init_differ' if case['null'] is not None and case['init'] is not None and case['null'] != case['init'] else 'null_absent_or_equal_init')
     if any(b['active'] for b in out['betas']):
         res.tally('active_bound')
-    for what, obs, exp, where in oracle(case, out)[:3]:
+    bad = oracle(case, out)
+    # every text report of the same object (all option values), after the tables were read
+    # (HTML with one value of only_robust, LaTeX with the other: both options of both reports over the stream)
+    flip = ctx.rng.random() < 0.5
+    texts = txt.collect(robj, ('short', 'str', 'print_general', 'html_robust' if flip else 'html_all', 'latex_all' if flip else 'latex_robust',
+                               'f12_robust', 'f12_classical'))
+    for pth, (st, _) in texts.items():
+        res.tally(f'text:{pth}:{"printed" if st == "ok" else "refused"}')
+    bad += txt.oracle_text(case, out, texts, GENERAL_LABEL)
+    texts2 = None
+    if ctx.rng.random() < 0.12:
+        texts2 = written_reports(robj, ctx.rng)
+        res.tally('written_reports')
+        bad += [(f'after write_*: {b[0]}',) + tuple(b[1:]) for b in txt.oracle_text(case, out, texts2, GENERAL_LABEL)]
+    for what, obs, exp, where in bad[:3]:
         res.violate(what, case, obs, exp, where=where)
+
+    def cb(ans, case=case, out=out, texts=texts, texts2=texts2):
+        compare_report(res, case, out, ans[0], ans[1])
+        if 'error' in ans[0]:
+            return
+        dv = lambda what, model, impl: res.diverge(what, case, model, impl, where='bioResults text reports')  # noqa: E731
+        txt.compare_text(dv, case, out, texts, ans[2], ans[0])
+        compare_views(res, case, out, ans[3], ans[4] if len(ans) > 4 else None)
+        if texts2 is not None and 'written' not in texts2:
+            txt.compare_text(lambda w, m, i: dv(f'after write_*: {w}', m, i), case, out, texts2, ans[2], ans[0])
+
     ctx.batch.add_many(
-        [report_req(case, out), dict(raw_req(case, out), op='general')],
-        lambda ans, case=case, out=out: compare_report(res, case, out, ans[0], ans[1]))
+        [report_req(case, out), dict(raw_req(case, out), op='general'), {'op': 'text', 'raw': raw_req(case, out), 'rep': rep_req(case, out)},
+         {'op': 'subset', 'rep': rep_req(case, out), 'subset': out['corr_subset'][0]}]
+        + ([{'op': 'sens', 'names': case['names'], 'req': out['sens'][0], 'S': mbits(case['S'])}] if out.get('sens') is not None and case['S'] is not None else []), cb)
 
 
 def check_compile(ctx, res, cc):
@@ -1194,6 +1551,7 @@ def check_compile(ctx, res, cc):
     res.count({'compile': [c['names'] for c in cc['models']], 'opts': [cc['statistics'], cc['params'], cc['std'], cc['ttest'], cc['formatted'], cc['short']]},
               nontrivial=len(cc['models']) >= 2)
     res.tally('compile_formatted' if cc['formatted'] else 'compile_numeric')
+    res.tally(f'compile_via_{cc.get("via", "dict")}')
     for what, obs, exp, where in oracle_compile(cc, table, outs)[:3]:
         res.violate(what, cc, obs, exp, where=where)
     ctx.batch.add(compile_req(cc, outs), lambda ans, cc=cc, table=table: compare_compile(res, cc, table, ans))
@@ -1205,11 +1563,19 @@ def check_lr(ctx, res, c):
     res.tally('lr_refused' if got['refused'] else 'lr_performed')
     for what, obs, exp, where in oracle_lr(c, got):
         res.violate(what, c, obs, exp, where=where)
+    res.tally(f'lr_via_{c["via"]}')
+    res.tally('lr_large_magnitude_small_relative_difference' if c['l1'] != c['l2'] and abs(c['l1'] - c['l2']) <= 1e-5 * abs(c['l1']) else 'lr_ordinary')
     ctx.batch.add({'op': 'lr', 'l1': f2b(c['l1']), 'k1': c['k1'], 'l2': f2b(c['l2']), 'k2': c['k2'], 'threshold': None},
                   lambda ans, c=c, got=got: compare_lr(res, c, got, ans))
+    if c['via'] == 'objects':
+        ctx.batch.add({'op': 'lr_results', 'self': raw_req(mini_case(c['l2'], c['k2']), None), 'other': raw_req(mini_case(c['l1'], c['k1']), None)},
+                      lambda ans, c=c, got=got: compare_lr(res, c, got, ans))
 
 
 def check(ctx) -> Result:
+    import logging
+
+    logging.getLogger('biogeme.results').setLevel(logging.ERROR)
     res = Result(rule=RULE, tolerance=TOL)
     rng = ctx.rng
     with core.scratch():
@@ -1250,11 +1616,12 @@ def check(ctx) -> Result:
     # real estimations through the same comparison
     for i in range(ctx.n(2, 10)):
         try:
-            case, out = real_estimation_case(rng, i)
+            case, out, robj = real_estimation_case(rng, i)
         except Exception as e:  # noqa: BLE001
             res.notes.append(f'real estimation {i} failed: {type(e).__name__}: {e}')
             continue
-        check_report(ctx, res, case, prebuilt=out)
+        with core.scratch():
+            check_report(ctx, res, case, prebuilt=(out, robj))
         res.tally('real_estimation')
     ctx.batch.flush()
     return res
@@ -1269,7 +1636,8 @@ def search(ctx, res, broken):
             if which < 3:
                 case = gen_case(rng)
                 r = run_case(case)
-                bad = [(f'no report: {r[2]}', r[2], 'a report', f'bioResults constructor ({r[1]})')] if r[0] == 'exc' else oracle(case, r[1])
+                bad = ([(f'no report: {r[2]}', r[2], 'a report', f'bioResults constructor ({r[1]})')] if r[0] == 'exc'
+                       else (full_oracle(case, r[1], r[2]) if which == 0 else oracle(case, r[1])))
             elif which == 3:
                 case = gen_compile(rng)
                 try:
@@ -1296,8 +1664,8 @@ def replay(ctx, obj):
             if r[0] == 'exc':
                 out.update({'property_fails': True, 'observed': r[2]})
             else:
-                bad = oracle(case, r[1])
-                out.update({'property_fails': bool(bad), 'failures': [[b[0], b[1], b[2]] for b in bad[:5]]})
+                bad = full_oracle(case, r[1], r[2])
+                out.update({'property_fails': bool(bad), 'failures': [[b[0], b[1] if not isinstance(b[1], str) else b[1][:300], b[2]] for b in bad[:5]]})
         elif kind == 'compile':
             try:
                 t, o = run_compile(case)
